@@ -141,6 +141,9 @@ def model_C(doc):
         if isinstance(ro, dict) and ro.get("kind") == "and":
             ro["items"] = ro["items"] + [{"kind": "reference", "name": "DocumentColorOptions"}, {"kind": "reference", "name": "StaticRegistrationOptions"}]
     # several classes with Python-keyword property names (collections of such classes must be ordered)
+    # two methods that map to the same generated constant / enum-variant name
+    c["notifications"].append({"method": "verif/collideName", "typeName": "VerifCollideANotification", "messageDirection": "both", "params": {"kind": "reference", "name": "Position"}})
+    c["notifications"].append({"method": "verif/collide_name", "typeName": "VerifCollideBNotification", "messageDirection": "both", "params": {"kind": "reference", "name": "Range"}})
     for nm, kws in (("VerifKeywordsOne", ["import", "from"]), ("VerifKeywordsTwo", ["global"]), ("VerifKeywordsThree", ["class", "lambda", "in"]), ("AVerifKeywordsFour", ["try"])):
         c["structures"].append({"name": nm, "properties": [{"name": k, "type": {"kind": "base", "name": "string"}, "optional": True} for k in kws]})
     return c
@@ -297,7 +300,7 @@ def main(tier):
             compare("stale", go("%s-stale" % plugin, outdir=dS), "hand-placed stale files")
             # stale files that LOOK current: the reference output itself with other line endings, and
             # with a trailing tail (longer than what will be written)
-            for variant in ("crlf", "tail"):
+            for variant in ("crlf", "tail", "flip"):
                 dV = os.path.join(root, "out-%s-%s" % (plugin, variant))
                 picked = sorted(ref_o)[:: max(1, len(ref_o) // 6)][:8]
                 for rel in picked:
@@ -307,11 +310,49 @@ def main(tier):
                     data = open(src, "rb").read()
                     if variant == "crlf":
                         data = data.replace(b"\r\n", b"\n").replace(b"\n", b"\r\n")
+                    elif variant == "flip":
+                        # SAME name, SAME size, other bytes (one character of an earlier output flipped)
+                        mid = len(data) // 2
+                        data = data[:mid] + bytes([data[mid] ^ 0x01 if data[mid] not in (0x0A, 0x0B) else 0x20]) + data[mid + 1:]
                     else:
                         data = data + b"\n// stale tail left by an earlier, longer file\n" * 40
                     open(dst, "wb").write(data)
-                compare(variant, go("%s-%s" % (plugin, variant), outdir=dV), "stale copy of the current output with %s" % ("CRLF line endings" if variant == "crlf" else "a longer tail"))
+                compare(variant, go("%s-%s" % (plugin, variant), outdir=dV), "stale copy of the current output with %s" % ({"crlf": "CRLF line endings", "tail": "a longer tail", "flip": "one byte flipped (same size)"}[variant]))
             if plugin == "rust":
+                # the rust plugin also rewrites the GENERATED_TEST_CODE block of <test-dir>/src/main.rs:
+                # fresh, after a model whose messages are the same but in another order, and re-run
+                src_main = os.path.join(common.REPO, "tests", "rust", "src", "main.rs")
+                if os.path.exists(src_main):
+                    def seeded_testdir(tag):
+                        td = os.path.join(root, "testdir-" + tag)
+                        os.makedirs(os.path.join(td, "src"), exist_ok=True)
+                        shutil.copy(src_main, os.path.join(td, "src", "main.rs"))
+                        return td
+
+                    def main_rs(td):
+                        return hashlib.sha256(open(os.path.join(td, "src", "main.rs"), "rb").read()).hexdigest()
+
+                    swapped = copy.deepcopy(doc)
+                    for sec in ("requests", "notifications"):
+                        L = swapped[sec]
+                        L[0], L[1] = L[1], L[0]
+                        L[-1], L[-2] = L[-2], L[-1]
+                    pSw = os.path.join(root, "swapped.json")
+                    json.dump(swapped, open(pSw, "w"))
+                    t_ref, t_hist = seeded_testdir("ref"), seeded_testdir("hist")
+                    r1 = genrun.run_generator("rust", root, testdir=t_ref, tag="rust-main-ref")
+                    r2 = genrun.run_generator("rust", root, models=[pSw], testdir=t_hist, tag="rust-main-sw")
+                    r3 = genrun.run_generator("rust", root, testdir=t_hist, tag="rust-main-after", hashseed="1")
+                    with lock:
+                        runs += 3
+                    histories.append("rust:test-dir main.rs after a model with the same messages in another order")
+                    if r1.rc or r2.rc or r3.rc:
+                        rep.fail("plugin fails depending on previous contents / configuration|rust|test-dir main.rs history", {"rc": [r1.rc, r2.rc, r3.rc]})
+                    else:
+                        if main_rs(t_ref) == hashlib.sha256(open(src_main, "rb").read()).hexdigest() and False:
+                            pass
+                        if main_rs(t_hist) != main_rs(t_ref):
+                            rep.fail("output differs from the fresh seed-0 run|rust|test-dir main.rs after a model with the same messages in another order", {})
                 # output package directory exists but is empty (previous contents = a bare directory)
                 dE = os.path.join(root, "out-rust-bare")
                 os.makedirs(os.path.join(dE, "lsprotocol"))
@@ -388,6 +429,13 @@ def main(tier):
                 o1, o2 = owned(plugin, c1.outdir), owned(plugin, c2.outdir)
                 if o1 != o2:
                     rep.fail("output differs between two processes on the same model|%s|anonymous literals" % plugin, {"different": sorted(k for k in o1 if o1.get(k) != o2.get(k))[:5]})
+                if plugin in ("python", "rust"):
+                    # more hash seeds on this model (a two-element set has only two iteration orders)
+                    for sd_ in ("2", "3", "5", "7"):
+                        cx = go("%s-C%s" % (plugin, sd_), models=mC, seed=sd_)
+                        if cx.rc == 0 and owned(plugin, cx.outdir) != o1:
+                            rep.fail("output differs between two processes on the same model|%s|anonymous literals" % plugin, {"hashseed": sd_})
+                            break
                 th = taint(plugin, c1.outdir, c1.log.get("uuid4_values", []))
                 if th:
                     rep.fail("random identifier reaches the output|%s" % plugin, {"hits": th})
